@@ -17,6 +17,8 @@ import (
 
 	"golang.org/x/crypto/argon2"
 	"golang.org/x/crypto/scrypt"
+	"reflect"
+	"time"
 )
 
 type mParam struct {
@@ -261,3 +263,49 @@ func statusClass(st int) string {
 }
 
 var _ = http.StatusOK
+
+// vAgentIdle waits until the agent has nothing queued and is not in the middle of a request:
+// every channel-typed field of the agent's store object is empty (read by reflection, whatever
+// the fields are called), then one round trip through the dispatcher (rendezvous), then empty
+// again - twice in a row. Returns false when that does not happen within max (the caller then
+// falls back to its own time bound). Machine load stretches hashing times; a fixed sleep does
+// not tell "still busy" from "idle".
+func vAgentIdle(st interface{}, rendezvous func(), max time.Duration) bool {
+	queued := func() int {
+		n := 0
+		rv := reflect.ValueOf(st)
+		for rv.Kind() == reflect.Ptr || rv.Kind() == reflect.Interface {
+			if rv.IsNil() {
+				return 0
+			}
+			rv = rv.Elem()
+		}
+		if rv.Kind() != reflect.Struct {
+			return 0
+		}
+		for i := 0; i < rv.NumField(); i++ {
+			f := rv.Field(i)
+			if f.Kind() == reflect.Chan && !f.IsNil() {
+				n += f.Len()
+			}
+		}
+		return n
+	}
+	deadline := time.Now().Add(max)
+	calm := 0
+	for time.Now().Before(deadline) {
+		if queued() == 0 {
+			rendezvous()
+			if queued() == 0 {
+				calm++
+				if calm >= 2 {
+					return true
+				}
+				continue
+			}
+		}
+		calm = 0
+		time.Sleep(2 * time.Millisecond)
+	}
+	return false
+}
